@@ -850,7 +850,141 @@ def r6_nothing_borrowed_is_held_across_recycling(ctx):
     ctx.floor("values held across calls that can recycle storage", n, 10)
 
 
-RULES = [("C02-R1", r1_promote_before_store), ("C02-R2", r2_copy_before_free), ("C02-R4", r4_resets), ("C02-R5", r5_promotion_complete), ("C02-R6", r6_nothing_borrowed_is_held_across_recycling)]
+VEC_GROWERS = {"push", "insert", "extend", "extend_from_slice", "append", "resize", "reserve", "push_mut", "extend_from_within"}
+PERSISTENT_RE = re.compile(r"\bself\.arena\b|\barena\(&?\*?self\.pool\)")
+
+
+def _strip_refs(t):
+    return re.sub(r"[&*\s]|\bmut\b", "", t)
+
+
+def _array_label_routes(fn, block, through_callees):
+    """For the parameter slot built in `block`: does every path on which the argument is an Array pass a call to one of
+    `through_callees` before the slot is built?  -> True / False / None (no dispatch on the argument's kind found)."""
+    gates = {c.block for c in fn.calls() if (c.callee or "") in through_callees}
+    vs = None
+    for S in sorted(fn.live):
+        if fn.blocks[S]["t"]["k"] != "switch" or not fn.dominates(S, block) or fn.dominates(block, S):
+            continue
+        si = fn.switch_info(S)
+        if si["kind"] == "discr" and si["ty"].endswith("runtime::Value") and block in fn.reach_from_succ(S):
+            vs = (S, si)
+    if vs is None:
+        return None
+    S, si = vs
+    for lab, tgt in fn.succ[S]:
+        if "Array" in label_names(fn, S, [lab], si) and block in fn.reach([tgt], removed_nodes=gates - {block}):
+            return False
+    return True
+
+
+def r7_slot_arrays_never_grow_on_the_frame(ctx):
+    """A loop body inside a function runs between a frame mark and a frame reset.  Storage that has to survive the iteration
+    must not be allocated in between: an array that a variable slot owns and that *grows* during the iteration (push) gets
+    its new buffer from its own allocator - if that is the frame arena the buffer is gone at the end of the iteration while
+    the slot still points at it.  So at every call that can grow a script array reached through a slot, the array's allocator
+    is the persistent arena: either every slot is built from a promoted value (parameters included), or the growth site is
+    reached only behind `ptr::eq(array.allocator(), <persistent>)` / a re-homing store of a vector built on the persistent
+    arena."""
+    # (B) are all parameter arrays persistent from the start?
+    fc = ctx.need("runtime::Runtime::eval_function_call")
+    all_promoted = None
+    for b in sorted(fc.live):
+        for st in fc.blocks[b]["s"]:
+            rv = st["rv"]
+            if rv["k"] == "agg" and rv["adt"].endswith("LocalSlot") and len(rv["ops"]) >= 3:
+                r = _array_label_routes(fc, b, {PROMOTE})
+                all_promoted = bool(r) if all_promoted is None else (all_promoted and bool(r))
+    n = 0
+    seen = {}
+    for fn in runtime_bodies(ctx):
+        for c in fn.calls():
+            cal = c.callee or ""
+            short = cal.split("::")[-1]
+            if not (cal == "builtins::array::ArrayBuiltin::push" or (cal.startswith("std::vec::Vec::") and short in VEC_GROWERS)):
+                continue
+            if not c.args:
+                continue
+            a0 = c.args[0]
+            pl = (a0.get("move") or a0.get("copy")) if isinstance(a0, dict) else None
+            if pl is None or "Vec<runtime::Value" not in fn.locals[pl["l"]]["ty"].replace("std::vec::", "").replace("alloc::vec::", ""):
+                continue
+            # whose vector is it?  an owned local of this body is a temporary under construction, not a slot's array
+            root = None
+            e = fn.deep(a0)
+            through_ref = False
+            while True:
+                if e[0] in ("ref", "deref", "field", "as", "cast"):
+                    through_ref = through_ref or e[0] == "deref"
+                    e = e[1]
+                elif e[0] == "call" and e[1].endswith("::branch") and e[2]:
+                    e = e[2][0]
+                else:
+                    break
+            if e[0] == "call":
+                if not through_ref:
+                    continue        # a vector this body has just built (`Vec::with_capacity_in(..)`), not one reached by reference
+                root = ("call", e[3] if len(e) > 3 else None, e[1])
+            elif e[0] == "var":
+                l = e[2] if len(e) > 2 else None
+                ty = fn.locals[l]["ty"] if l is not None else ""
+                if not ty.lstrip().startswith("&"):
+                    continue        # `let mut v = Vec::...; v.push(..)`: a temporary under construction, not a slot's array
+                if "Vec<" not in ty:
+                    continue        # a vector that is a field of the interpreter itself (self.output), not one reached through a slot
+                root = ("arg", 0, e[1])
+            if root is None:
+                continue
+            n += 1
+            ctx.touch(fn)
+            ord_ = seen[(fn.id, short)] = seen.get((fn.id, short), 0) + 1
+            key = "grow|%s|%s#%d" % (parent_fn(fn.id).split("::")[-1], short, ord_)
+            if all_promoted:
+                ctx.ok(key, fn.where(c.block), "every slot, parameters included, is built from a promoted value: slot arrays live on the persistent arena")
+                continue
+            recv = _strip_refs(sh(ne(fn.deep(a0))))
+            gen_nodes, gen_edges = set(), set()
+            for S in sorted(fn.live):
+                t = fn.blocks[S]["t"]
+                if t["k"] != "switch":
+                    continue
+                si = fn.switch_info(S)
+                neg = False
+                if si["kind"] == "un" and si.get("op") == "Not":
+                    inner = fn.deep(si["a"])
+                    txt = sh(ne(inner))
+                    neg = True
+                elif si["kind"] == "call" and (si["callee"] or "").endswith("ptr::eq"):
+                    txt = sh(ne(fn.deep(t["d"])))
+                else:
+                    continue
+                if "eq(" not in txt or "allocator(" not in txt or not PERSISTENT_RE.search(txt):
+                    continue
+                m = re.search(r"allocator\(([^()]*(?:\([^()]*\))*[^()]*)\)", txt)
+                if m and recv and _strip_refs(m.group(1)) != recv and recv not in _strip_refs(txt):
+                    continue
+                for lab, _j in fn.succ[S]:
+                    is_true = (lab != 0)
+                    if is_true != neg:
+                        gen_edges.add((S, lab))
+            for b in sorted(fn.live):
+                for st in fn.blocks[b]["s"]:
+                    lhs = st["lhs"]
+                    if lhs["p"] == ["*"] and "Vec<runtime::Value" in fn.locals[lhs["l"]]["ty"].replace("std::vec::", "").replace("alloc::vec::", "") and st["rv"]["k"] == "use":
+                        txt = sh(ne(fn.deep(st["rv"]["a"])))
+                        if (re.search(r"(with_capacity_in|new_in)\(", txt) and PERSISTENT_RE.search(txt) and "self.frame" not in txt) or "promote(" in txt:
+                            gen_nodes.add(b)
+            start = fn.blocks[root[1]]["t"].get("target") if root[0] == "call" and root[1] is not None else 0
+            starts = [start] if start is not None else [0]
+            if c.block in fn.reach(starts, removed_nodes=gen_nodes, removed_edges=gen_edges):
+                ctx.bad(key, fn.where(c.block),
+                        "%s grows a script array reached through a variable slot, and nothing on the way establishes that the array lives on the persistent arena (parameter arrays are bound on the frame): inside a loop body of a function the new buffer lies above the mark the iteration resets to, so after the iteration the parameter points at recycled frame memory (`do f(p) start jasi (..) start p.push(..) end end`: abort in debug builds, garbage otherwise)" % short)
+            else:
+                ctx.ok(key, fn.where(c.block), "reached only with the array on the persistent arena (allocator test / re-homing store on every path)")
+    ctx.floor("growth sites of slot-owned script arrays", n, 1)
+
+
+RULES = [("C02-R1", r1_promote_before_store), ("C02-R2", r2_copy_before_free), ("C02-R4", r4_resets), ("C02-R5", r5_promotion_complete), ("C02-R6", r6_nothing_borrowed_is_held_across_recycling), ("C02-R7", r7_slot_arrays_never_grow_on_the_frame)]
 
 EXPLANATION = (
     "The interpreter launders lifetimes with unsafe code, so the borrow checker is blind where this property lives; the rules "
@@ -870,6 +1004,9 @@ EXPLANATION = (
     "Decides the presence and order of the mechanism on all paths and, with R6, every place where a possibly-borrowed value is "
     "kept across re-entrant evaluation (13 such places are open known findings, each with a failing script); does not decide "
     "output equality with reclamation off, nor aliasing through raw pointers outside runtime.rs/builtins."
+)
+EXPLANATION += (
+    " R7: every call that can grow a script array reached by reference (the value of a variable slot) is reached only with the array on the persistent arena - either every slot, parameters included, is built from a promoted value, or every path to the growth site passes the true side of `ptr::eq(array.allocator(), <persistent>)` or a store of a vector built on the persistent arena; otherwise the new buffer of a push inside a loop body lies above the frame mark of the iteration (one genuine defect, D29, found and repaired)."
 )
 ASSUMPTIONS = ["values reach variables only through the sinks discovered by type in runtime.rs", "cfg(test)/wasm/windows code not analysed"]
 TRUSTED = ["rustc nightly MIR construction", "nsx exporter", "nsverif dominance / provenance (flow-insensitive over defs of a local)"]
